@@ -383,6 +383,8 @@ def sorted_rle_gather_1d(rle_data, ordered_indices):
         index = next(index_iter)
     except StopIteration:
         return
+    if index < 0:
+        raise IndexError("Index %d is negative" % index)
     start = 0
     while True:
         while start <= index:
@@ -526,6 +528,8 @@ def sorted_brle_gather_1d(brle_data, ordered_indices):
         index = next(index_iter)
     except StopIteration:
         return
+    if index < 0:
+        raise IndexError("Index %d is negative" % index)
     start = 0
     value = True
     while True:
